@@ -48,8 +48,12 @@ impl References {
     /// modules must not turn the check into hours of waiting.
     pub fn note_death(&mut self, d: &Death) {
         if let Death::Timeout(_) = d {
-            self.timeout = self.timeout.min(Duration::from_secs(5));
+            self.timeout = self.timeout.min(Duration::from_secs(3));
         }
+    }
+    /// Hands over a reference computed elsewhere (the shared solo table).
+    pub fn preload(&mut self, t: &PlanTask, r: SoloResult) {
+        self.map.insert((t.src.clone(), t.ts, t.options.clone(), t.comments), Rc::new(r));
     }
     pub fn budgets(&mut self, plan: &Plan) -> Vec<u32> {
         plan.tasks.iter().map(|t| sched::sim_budget(self.get(t).steps)).collect()
